@@ -135,11 +135,12 @@ type Exec struct {
 	assumeBlock []int         // origin block of each assumption
 	reach       map[int]map[int]bool // reach[a][b]: block a reaches block b in the top-frame CFG (reflexive)
 	specAppBlk  map[string]int
+	trusted     map[string]bool // trusted (assumed) contracts used
 }
 
 func newExec(p *Program, fnKey string) *Exec {
 	return &Exec{p: p, declared: map[string]bool{}, fnKey: fnKey, fuel: 2, specApps: map[string]int{}, notes: map[string]bool{},
-		curBlock: -1, specAppBlk: map[string]int{}}
+		curBlock: -1, specAppBlk: map[string]int{}, trusted: map[string]bool{}}
 }
 
 // relevant reports whether an assumption made in block a can matter for an obligation in block b:
@@ -403,6 +404,9 @@ func (e *Exec) project(t Term, r *Root, path []Step) Term {
 	for _, s := range path {
 		if s.IsField {
 			t = u.Field(t, s.Field)
+		} else if t.Sort == SHash {
+			u.useHash = true
+			t = App(SInt, "hash_get", t, s.Index)
 		} else {
 			// index into an array-valued field: modelled as slice term
 			t = u.SIndex(t, s.Index)
@@ -422,6 +426,10 @@ func (e *Exec) updPath(cur Term, path []Step, v Term) Term {
 	s := path[0]
 	if s.IsField {
 		return u.WithField(cur, s.Field, e.updPath(u.Field(cur, s.Field), path[1:], v))
+	}
+	if cur.Sort == SHash {
+		u.useHash = true
+		return App(SHash, "hash_set", cur, s.Index, v)
 	}
 	// index into slice-sorted term (array field)
 	d := u.DT(cur.Sort)
@@ -490,6 +498,7 @@ func (e *Exec) mergeStates(sts []*State, conds []Term) *State {
 	for _, k := range roots {
 		var t Term
 		first := true
+		merged := false
 		for i := len(sts) - 1; i >= 0; i-- {
 			v, ok := sts[i].mem[k]
 			if !ok {
@@ -499,10 +508,16 @@ func (e *Exec) mergeStates(sts []*State, conds []Term) *State {
 				t = v
 				first = false
 			} else {
+				if v.S != t.S {
+					merged = true
+				}
 				t = Ite(conds[i], v, t)
 			}
 		}
-		out.mem[k] = e.name("m_"+k.Name, t)
+		if merged {
+			t = e.name("m_"+k.Name, t)
+		}
+		out.mem[k] = t
 	}
 	ckeys := map[*Root]bool{}
 	for _, s := range sts {
